@@ -67,6 +67,32 @@ def installGroupsLegacy : List (Int × List Str) → Outcome
   | [] => .ok .none
   | (ret, output) :: rest => if ret = 0 then .cmdError ret (joinSep ['\n'] output) else installGroupsLegacy rest
 
+/-! ## directory creation in Python (`_install_dirs`) -/
+
+/-- the os-level work `_install_dirs` does for one directory: `os.makedirs(d, exist_ok=True)` and, when the request
+carries `diroptions`, `_set_attributes` (`lchown`, `chmod`).  `some e` = that step raised an `OSError` whose
+`strerror` is `e`; `path` is `repr(d)`. -/
+structure DirStep where
+  path : Str
+  mkdir : Option Str
+  attrs : Option Str
+  deriving DecidableEq, Repr
+
+/-- `_install_dirs`: the directories in order; the first failing step raises
+`IpcCommandError("failed creating dir: …")` / `IpcCommandError("failed setting file attributes: …")` (code 1) and
+nothing after it is attempted -/
+def installDirsPy (withOpts : Bool) : List DirStep → Outcome
+  | [] => .ok .none
+  | s :: rest =>
+    match s.mkdir with
+    | some e => .cmdError 1 ("failed creating dir: ".toList ++ s.path ++ ": ".toList ++ e)
+    | none =>
+      if withOpts then
+        match s.attrs with
+        | some e => .cmdError 1 ("failed setting file attributes: ".toList ++ s.path ++ ": ".toList ++ e)
+        | none => installDirsPy withOpts rest
+      else installDirsPy withOpts rest
+
 /-! ## `IpcCommand.__call__` -/
 
 structure Request where
